@@ -2,6 +2,7 @@ package main
 
 import (
 	"bytes"
+	stdjson "encoding/json"
 	"fmt"
 	"math/rand"
 	"reflect"
@@ -151,6 +152,32 @@ func runC07(c *Ctx) {
 	if c.IsWorker() {
 		return
 	}
+	// every field kind x tag (plain, omitempty, string, both) x position, between canaries: null, the
+	// quoted null, a fitting value and a wrong one, through Unmarshal and through the Decoder
+	FieldMatrix(func(t reflect.Type, v reflect.Value) {
+		ht := c07Holder(t, 8)
+		name := "F"
+		for i := 0; i < t.NumField(); i++ {
+			if t.Field(i).Name == "F" {
+				if n := strings.Split(t.Field(i).Tag.Get("json"), ",")[0]; n != "" {
+					name = n
+				}
+			}
+		}
+		fit, err := stdjson.Marshal(v.Interface())
+		docs := []string{`{"` + name + `":null}`, `{"` + name + `":"null"}`, `{"` + name + `":null,"Z":1,"A":"a"}`, `{"` + name + `":[1]}`, `{"` + name + `":"x"}`}
+		if err == nil {
+			docs = append(docs, string(fit))
+		}
+		for _, doc := range docs {
+			for _, label := range []string{"unmarshal", "decoder"} {
+				h := reflect.New(ht).Elem()
+				h.Field(1).Set(v)
+				c07FillCanaries(h)
+				c07Decode(c, label+"-matrix-populate", h, h.Field(1).Addr().Interface(), doc, []byte(doc))
+			}
+		}
+	})
 	// arrays: every element size 1..64, JSON arrays shorter / equal / longer; compared with the model
 	for size := 1; size <= 64; size++ {
 		et := reflect.ArrayOf(size, reflect.TypeOf(byte(0)))
